@@ -138,7 +138,11 @@ XorTerms(s, o) == SeqSet(Ranges(s, o.lo, o.hi, 94))
 TextParsesNS(s) ==
   /\ Len(s) >= 1
   /\ \A o \in OrParts(s) : \A x \in XorTerms(s, o) : TermParses(s, x.lo, x.hi)
-TextParses(t) == TextParsesNS(NoSpaces(t))
+\* blanks may separate tokens, not split one: none right after 'x' (before the index), after '!' or between digits
+TokensTight(t) == \A k \in 1..(Len(t) - 1) :
+                    t[k + 1] = 32 => /\ t[k] \notin {120, 33}
+                                     /\ ~(IsDigit(t[k]) /\ \E j \in (k + 2)..Len(t) : IsDigit(t[j]) /\ \A i \in (k + 1)..(j - 1) : t[i] = 32)
+TextParses(t) == TokensTight(t) /\ TextParsesNS(NoSpaces(t))
 ParsedTextNS(s) == {{TermStruct(s, x.lo, x.hi) : x \in XorTerms(s, o)} : o \in OrParts(s)}
 ParsedText(t) == ParsedTextNS(NoSpaces(t))
 TermTrue(t, M) == IF t.const = "-" THEN t.pos \subseteq M /\ t.neg \cap M = {} ELSE t.const = "1"
